@@ -189,6 +189,14 @@ def replay(rec):
         bad = 'MISMATCH' in res or 'RESULT panic' in res
         print('the violation %s' % ('REPRODUCES' if bad else 'does not reproduce on the current tree'))
         return 1 if bad else 0
+    if ce['kind'] == 'stream_diff':
+        build_replay()
+        res = run_replay(['stream-diff', ce.get('seqs', 3000)], timeout=600)
+        print('recorded : ' + ce['observed'][:1500])
+        print('observed : ' + res[:1500])
+        bad = 'MISMATCH' in res or 'RESULT panic' in res
+        print('the violation %s' % ('REPRODUCES' if bad else 'does not reproduce on the current tree'))
+        return 1 if bad else 0
     if ce['kind'] == 'jump_diff':
         build_replay()
         res = run_replay(['jump', ce['generator'], ce['call'], ce['seed_hex'], ','.join(str(x) for x in ce['poly'])], timeout=60)
@@ -338,5 +346,26 @@ def isaac_diff_part(blocks=20000):
                      text=res, detail=[dict(message=res, rendered=res, failing_input=fi)] if bad else [],
                      bounded='exploration: 12 seeds x %d blocks x 2 generators' % blocks))
     pr.cmd = 'rngs-replay isaac-diff %d' % blocks
+    pr.wall_s = _t.time() - t0
+    return pr
+
+
+def stream_diff_part(seqs=3000):
+    """C05 fallback / thorough-tier exploration: 19 generators x `seqs` random interleavings of next_u32 / next_u64 / fill_bytes(n)
+    against a twin driven with native-width calls only, projected as the property documents.  Bounded: agreeing runs prove nothing."""
+    from .parts import PartResult, Ob, DISCHARGED, FAILED
+    import time as _t
+    pr = PartResult('diff:stream')
+    t0 = _t.time()
+    build_replay()
+    res = run_replay(['stream-diff', seqs], timeout=600)
+    bad = 'MISMATCH' in res or 'RESULT panic' in res
+    if not bad and not res.startswith('RESULT ok'):
+        pr.undecided.append('stream-diff did not complete: ' + res[:200])
+    fi = dict(kind='stream_diff', seqs=seqs, observed=res[:3000], explanation='native differential run on the real crates (dev profile): interleaved calls vs. the documented projection of the native word stream of an identically seeded twin')
+    pr.obs.append(Ob('diff:stream:C05', ['C05'], FAILED if bad else DISCHARGED, 'replay-differential', fn='RngCore impls of all 19 deterministic generators (public API)', kind='differential',
+                     text=res[:400], detail=[dict(message=res[:1500], rendered=res[:3000], failing_input=fi)] if bad else [],
+                     bounded='exploration: 19 generators x %d histories of 14 calls' % seqs))
+    pr.cmd = 'rngs-replay stream-diff %d' % seqs
     pr.wall_s = _t.time() - t0
     return pr
